@@ -456,6 +456,15 @@ func c16Expect(c *c16Case) (e c16Exp) {
 			return c16Exp{IDs: []string{pe.ID}, Src: src}
 		case len(nameIDs) == 1 && nameIDs[0] == pe.ID && ne.exact():
 			return c16Exp{IDs: []string{pe.ID}, Src: src}
+		case len(nameIDs) == 1 && ne.exact():
+			// Two well-formed sources naming different clients, the server
+			// name inside the configured domain (so the strict check has
+			// nothing to object to).  The statement does not rank them; the
+			// product's documentation does (CHANGELOG, #3418: "AdGuard Home
+			// checks the server name only if the URL does not contain a
+			// ClientID"), in both settings of the strict check: the request
+			// belongs to the client named in the path.
+			return c16Exp{IDs: []string{pe.ID}, Src: src + "-differing", Why: "documented-path-precedence"}
 		default:
 			ids := []string{pe.ID}
 			for _, id := range nameIDs {
@@ -1232,6 +1241,9 @@ func (r *c16Runner) eval(c *c16Case) {
 		rep.Event("oracle_demands_failure:" + e.Why)
 	case e.exact() && e.IDs[0] != "":
 		rep.Event("oracle_demands_exact_clientid")
+		if e.Why == "documented-path-precedence" {
+			rep.Event(fmt.Sprintf("oracle_demands_path_clientid_over_server_name_clientid:strict=%v", c.Strict))
+		}
 	case e.exact():
 		rep.Event("oracle_demands_no_clientid_and_success")
 	default:
@@ -1394,18 +1406,20 @@ func TestVerifC16(t *testing.T) {
 
 	// The run must have seen every kind of demand and every kind of outcome.
 	need := map[string]int{
-		"oracle_demands_exact_clientid":                         2000,
-		"oracle_demands_failure:invalid-label":                  1000,
-		"oracle_demands_failure:strict-outside":                 500,
-		"oracle_demands_no_clientid_and_success":                500,
-		"oracle_accepts_several_outcomes":                       1000,
-		"observed_clientid_in_cache":                            2000,
-		"observed_servfail_responses":                           2000,
-		"observed_no_clientid":                                  2000,
-		"host_header_port_pairs_compared":                       200,
-		"doh_url_parsed_from_request_target":                    500,
-		"delayed_cache_reads_after_other_clientids_were_stored": 2000,
-		"delayed_cache_reads_after_cache_clear_call":            100,
+		"oracle_demands_exact_clientid":                                       2000,
+		"oracle_demands_failure:invalid-label":                                1000,
+		"oracle_demands_failure:strict-outside":                               500,
+		"oracle_demands_no_clientid_and_success":                              500,
+		"oracle_accepts_several_outcomes":                                     1000,
+		"observed_clientid_in_cache":                                          2000,
+		"observed_servfail_responses":                                         2000,
+		"observed_no_clientid":                                                2000,
+		"host_header_port_pairs_compared":                                     200,
+		"doh_url_parsed_from_request_target":                                  500,
+		"delayed_cache_reads_after_other_clientids_were_stored":               2000,
+		"delayed_cache_reads_after_cache_clear_call":                          100,
+		"oracle_demands_path_clientid_over_server_name_clientid:strict=true":  100,
+		"oracle_demands_path_clientid_over_server_name_clientid:strict=false": 100,
 	}
 	keys := make([]string, 0, len(need))
 	for k := range need {
